@@ -7,6 +7,7 @@
 //!               `match s.to_lowercase().as_str() { "w1" | "w2" … => B, _ => B }` (the word list is taken from the source);
 //!               `if let Ok(x) = s.parse::<isize>() { e } else { e }` (`parseIsize`), `parse::<f64>` (`parseQuarter`),
 //!               `DateTime::parse_from_rfc3339(s)` (the parameter `pd`);
+//!               `cmp_float_int(f, n).is_some_and(Ordering::is_gt|is_ge|is_lt|is_le)` (float against integer: `f ⋈ 4 * n` on quarters);
 //!               `v.iter().any(|e| e.test(&DataOperator::V(arg)))` (`dvAnyElem`), `!value.test(operator)`,
 //!               `operators.iter().all(|o| value.test(o))` / `.any(…)` (`dvAll` / `dvAny`).
 use quote::ToTokens;
@@ -128,6 +129,17 @@ fn body(e: &Expr) -> Result<String, String> {
                 return Ok(format!("(match {} with | some {} => {} | none => {})", parser, binder, then, els));
             }
             Err(format!("unsupported `if`: {}", i.cond.to_token_stream()))
+        }
+        // cmp_float_int(f, n).is_some_and(Ordering::is_gt|is_ge|is_lt|is_le): the float `f` (the model's floats are
+        // quarters, never NaN) against the integer `n`
+        Expr::MethodCall(mc) if mc.method == "is_some_and" && mc.args.len() == 1 => {
+            let (f, n) = match &*mc.receiver {
+                Expr::Call(c) if c.func.to_token_stream().to_string() == "cmp_float_int" && c.args.len() == 2 => (name(&c.args[0])?, name(&c.args[1])?),
+                o => return Err(format!("expected cmp_float_int(f, n), found `{}`", o.to_token_stream())),
+            };
+            let which = mc.args[0].to_token_stream().to_string().replace(' ', "");
+            let rel = match which.as_str() { "Ordering::is_gt" => ">", "Ordering::is_ge" => "≥", "Ordering::is_lt" => "<", "Ordering::is_le" => "≤", o => return Err(format!("unsupported ordering test `{}`", o)) };
+            Ok(format!("decide ({} {} 4 * {})", f, rel, n))
         }
         // v.iter().any(|e| e.test(&DataOperator::V(arg)))  /  operators.iter().all|any(|o| value.test(o))
         Expr::MethodCall(mc) if matches!(mc.method.to_string().as_str(), "any" | "all") && mc.args.len() == 1 => {
